@@ -17,12 +17,15 @@ def labelsFor (s : S) : List Label :=
   (if s.hostsGone then [] else [.hostsGone]) ++
   ks.flatMap (fun k =>
     [Label.upResp k 200 false false, .upResp k 503 false false, .upResp k 200 true false, .upResp k 200 true true,
-     .upReset k .StreamConnectionTermination, .upReset k .StreamRemoteReset, .upReset k .StreamConnectionFailed])
+     .upReset k .StreamConnectionTermination, .upReset k .StreamRemoteReset, .upReset k .StreamConnectionFailed,
+     .upRespS k 200 true false, .upRespS k 200 false true, .upRespS k 200 true true, .upRespS k 503 true false, .upEnd k])
 
 def labelTok : Label → String
   | .work => "w"
   | .upResp k code d t => s!"R{k}:{code}:{bs d}{bs t}"
   | .upReset k r => s!"X{k}:{r.name}"
+  | .upRespS k code d t => s!"B{k}:{code}:{bs d}{bs t}"
+  | .upEnd k => s!"E{k}"
   | .poolFail .overflow => "PFo"
   | .poolFail .connfail => "PFc"
   | .hostsGone => "HG"
